@@ -59,6 +59,45 @@ def _one(args):
         return (mid, 'error', traceback.format_exc()[-300:], clause)
 
 
+def _rewrite(args):
+    """one kind of whole-package behaviour-preserving rewrite (tools/twins.py, tools/twins2.py): the property's rules must stay silent"""
+    pid, root, kind = args
+    try:
+        tools = os.path.join(os.path.dirname(os.path.dirname(os.path.abspath(__file__))), 'tools')
+        if tools not in sys.path:
+            sys.path.insert(0, tools)
+        import twins
+        import twins2
+        from .loader import Repo
+        from . import report
+        from .main import analyse
+        src = twins.sources(root)
+        if kind in ('format', 'rename'):
+            ov = {}
+            for m, s in src.items():
+                x = twins.rename(s) if kind == 'rename' else s
+                ov[m] = twins.fmt(x)
+            nsites = None
+        else:
+            ov, ns, _ = twins2.build(kind, src, None, twins2.signatures(src))
+            nsites = sum(ns.values())
+        repo = Repo(root, overrides=ov)
+        known = report.load_known()
+        run = analyse(pid, repo, 'quick')
+        new_v = [o for o in run.violations() if report.match_known(o, known) is None]
+        if new_v:
+            return (kind, 'FALSE-ALARM', '%s-%s %s: %s' % (new_v[0].prop, new_v[0].clause, new_v[0].unit, new_v[0].what[:100]), nsites)
+        if run.errors:
+            return (kind, 'analysis-error', run.errors[0][:160], nsites)
+        return (kind, 'silent', '', nsites)
+    except Exception:
+        return (kind, 'error', traceback.format_exc()[-300:], None)
+
+
+REWRITE_KINDS = ['format', 'rename', 'swapif', 'cmpflip', 'nestand', 'dropelse', 'addelse', 'tempret', 'plainaug', 'nop', 'kwargs',
+                 'demorgan', 'swapassign', 'alias']
+
+
 def run_selftest(pid, root, out, jobs=None):
     from .main import load_prop
     mod = load_prop(pid)
@@ -85,6 +124,13 @@ def run_selftest(pid, root, out, jobs=None):
                 results = pool.map(_one, tasks)
         else:
             results = [_one(t) for t in tasks]
+    rw = []
+    try:
+        import multiprocessing as mp
+        with mp.get_context('fork').Pool(min(14, os.cpu_count() or 2)) as pool:
+            rw = pool.map(_rewrite, [(pid, root, k) for k in REWRITE_KINDS])
+    except Exception:
+        rw = [('*', 'error', traceback.format_exc()[-200:], None)]
     killed = sum(1 for r in results if r[1] in ('killed', 'killed-other'))
     survived = [r for r in results if r[1] == 'SURVIVED']
     aerr = [r for r in results if r[1] in ('analysis-error', 'error')]
@@ -101,7 +147,13 @@ def run_selftest(pid, root, out, jobs=None):
         out('SELFTEST-NOTE property=%s mutant=%s -> %s: %s' % (pid, r[0], r[1], r[2]))
     for r in falarm:
         out('SELFTEST-WEAK property=%s behaviour-preserving variant %s raised an alarm: %s' % (pid, r[0], r[2]))
+    out('SELFTEST-REWRITES property=%s whole-package behaviour-preserving rewrites: kinds=%d silent=%d (sites rewritten: %s)'
+        % (pid, len(rw), sum(1 for r in rw if r[1] == 'silent'), ', '.join('%s %s' % (r[0], r[3]) for r in rw if r[3] is not None)))
+    for r in rw:
+        if r[1] != 'silent':
+            out('SELFTEST-WEAK property=%s whole-package rewrite `%s` -> %s: %s' % (pid, r[0], r[1], r[2]))
     return {
+        'package_rewrites': [{'kind': r[0], 'result': r[1], 'detail': r[2], 'sites': r[3]} for r in rw],
         'mutants': len(muts), 'killed': killed, 'survived': [r[0] for r in survived],
         'analysis_error': [r[0] for r in aerr], 'skipped': [r[0] for r in skipped],
         'preserving_variants': len(pres), 'preserving_silent': len(silent),
